@@ -1,9 +1,36 @@
 //! Shared helpers of the policy-semantics monitors.
-pub use polkit::bombs;
+
 
 pub fn first_line(s: &str) -> String {
     let l = s.lines().find(|l| !l.trim().is_empty()).unwrap_or("");
     // strip volatile numbers so that the coverage set stays small
     let l: String = l.chars().map(|c| if c.is_ascii_digit() { '#' } else { c }).collect();
     l.chars().take(110).collect()
+}
+
+pub mod pure;
+pub mod cmdrun;
+
+/// Signature-aware merge of a worker monitor: at most two witnesses per signature so that a
+/// frequent (possibly known) signature cannot crowd out a new one.
+pub fn merge(into: &mut vcore::Monitor, mut o: vcore::Monitor) {
+    let vs = std::mem::take(&mut o.violations);
+    into.absorb(o);
+    for v in vs {
+        if into.violations.len() < into.max_violations
+            && into.violations.iter().filter(|x| x.signature == v.signature).count() < 2
+        {
+            into.violations.push(v);
+        }
+    }
+}
+
+/// Record a violation keeping at most two witnesses per signature in this monitor.
+pub fn violation_capped(m: &mut vcore::Monitor, sig: &str, detail: vcore::Value) {
+    m.seen("violation_signatures", sig);
+    if m.violations.iter().filter(|v| v.signature == sig).count() >= 2 {
+        m.count("violations_raw", 1);
+        return;
+    }
+    m.violation(sig, detail);
 }
